@@ -13,7 +13,7 @@ id=$1; runs=${2:-40}; seed=${3:-11}
 cd /verif
 . ./env.sh
 lc=$(echo $id | tr A-Z a-z)
-./check $id --runs 1 >/dev/null 2>&1   # make sure the binary is current
+./check $id --build-only >/dev/null 2>&1   # make sure the binary is current (no evidence is written)
 d=$(mktemp -d /tmp/det-$id-XXXX)
 total=$(nproc)
 n=0
